@@ -405,6 +405,19 @@ def parser_and_calls(ctx, sut):
                 ctx.witness("parse_escape." + outcome, {"schema": schema, "site": "parser"},
                             f"{type(exc).__name__} escaped parse_element on a metaschema-valid schema: {exc!r}"[:500])
             continue
+        if isinstance(schema, dict) and "$schema" in schema:
+            # the document entry point reads the document level: same contract
+            ctx.evaluation()
+            try:
+                sut.st_parser.parse(sut.add_titles(copy.deepcopy(schema)))
+                ctx.count("parse.document_naming_a_meta_schema")
+            except BaseException as exc:  # pylint: disable=broad-except
+                if isinstance(exc, (KeyboardInterrupt, SystemExit)):
+                    raise
+                outcome = sut.outcome_class(exc)
+                if outcome not in ("SchemaParseError", "FeatureNotImplementedError"):
+                    ctx.witness("parse_escape." + outcome, {"schema": schema, "site": "parse"},
+                                f"{type(exc).__name__} escaped parse() on a metaschema-valid document: {exc!r}"[:500])
         values = [gv.hostile_value(rng, 2) for _ in range(ctx.params["values"] // 2)]
         values += gv.batch_for_schema(rng, base, base, count=ctx.params["values"] // 2) \
             if isinstance(base, dict) else []
@@ -679,6 +692,15 @@ def replay(case, ctx):
         ctx.evaluation()
         try:
             (sut.st_parser.parse if case["site"] == "deep_parse" else sut.st_parser.parse_element)(schema)
+        except BaseException as exc:  # pylint: disable=broad-except
+            outcome = sut.outcome_class(exc)
+            if outcome not in ("SchemaParseError", "FeatureNotImplementedError"):
+                ctx.witness("parse_escape." + outcome, case, repr(exc)[:200])
+        return
+    if case.get("site") == "parse":
+        ctx.evaluation()
+        try:
+            sut.st_parser.parse(sut.add_titles(copy.deepcopy(schema)))
         except BaseException as exc:  # pylint: disable=broad-except
             outcome = sut.outcome_class(exc)
             if outcome not in ("SchemaParseError", "FeatureNotImplementedError"):
